@@ -279,6 +279,12 @@ type callResult struct {
 func withAdmin(cl *sarama.VerifCluster, sc *sarama.VerifScript, conf *sarama.Config, f func(a sarama.ClusterAdmin) (interface{}, error)) callResult {
 	cl.Arm(sc)
 	admin, err := sarama.NewClusterAdmin(cl.Addrs(), conf)
+	for try := 0; err != nil && try < 4 && err != sarama.ErrUnsupportedVersion; try++ {
+		// the environment, not the code under test (e.g. local ports momentarily exhausted): wait and retry
+		time.Sleep(time.Duration(500*(try+1)) * time.Millisecond)
+		cl.Arm(sc)
+		admin, err = sarama.NewClusterAdmin(cl.Addrs(), conf)
+	}
 	if err != nil {
 		return callResult{setupErr: err}
 	}
@@ -1561,10 +1567,17 @@ func main() {
 		go func() {
 			defer wg.Done()
 			cl := sarama.NewVerifCluster(3)
-			defer cl.Close()
+			defer func() { cl.Close() }()
+			done := 0
 			for i := range idx {
 				l, o := execLine(cl, lines[i])
 				results[i] = res{l, o}
+				if done++; done%2000 == 0 {
+					// fresh listeners: every case opens a few TCP connections, and closed ones keep their
+					// (local port, listener) pair busy for a minute
+					cl.Close()
+					cl = sarama.NewVerifCluster(3)
+				}
 			}
 		}()
 	}
